@@ -34,6 +34,7 @@ Statement level
   * `a, b = (x, y)` -> `a = x`; `b = y` (plain distinct names not read on the right)
   * `if (x := E): S` -> `x = E; if x: S`; a walrus in a later conjunct of an else-less test nests the test
   * `x = A if c else B` -> `if c: x = A else: x = B`, likewise `return A if c else B` (whole-value conditionals)
+  * `x = <constant>` that no read can observe (reaching definitions) is removed
   * a local assigned once and read once by the next statement (first thing evaluated there, or a pure value) is inlined
   * case splitting (sa/casesplit.py): `if V in ('a','b'): S` whose body switches on V again -> one arm per literal
   * `if a: (if b: X)` without else -> `if a and b: X`;  `if k in M: x = M[k]` -> `x = M.get(k, x)`
@@ -344,10 +345,14 @@ def _split_tuple_assigns(stmts):
     out = []
     for s in stmts:
         if isinstance(s, ast.Assign) and len(s.targets) == 1 and isinstance(s.targets[0], ast.Tuple) and isinstance(s.value, ast.Tuple) and len(s.targets[0].elts) == len(s.value.elts) and all(isinstance(t, ast.Name) for t in s.targets[0].elts) and not any(isinstance(v, ast.Starred) for v in s.value.elts):
-            tnames = {t.id for t in s.targets[0].elts}
-            if len(tnames) == len(s.targets[0].elts) and not any(isinstance(n, ast.Name) and n.id in tnames for v in s.value.elts for n in ast.walk(v)) and not any(isinstance(n, (ast.Call, ast.Yield, ast.YieldFrom, ast.Await)) for v in s.value.elts[1:] for n in ast.walk(v)):
-                for t, v in zip(s.targets[0].elts, s.value.elts):
+            # components `x = x` change nothing
+            pairs = [(t, v) for t, v in zip(s.targets[0].elts, s.value.elts) if not (isinstance(v, ast.Name) and v.id == t.id)]
+            tnames = {t.id for t, _ in pairs}
+            if len(tnames) == len(pairs) and len({t.id for t in s.targets[0].elts}) == len(s.targets[0].elts) and not any(isinstance(n, ast.Name) and n.id in tnames for _, v in pairs for n in ast.walk(v)) and not any(isinstance(n, (ast.Call, ast.Yield, ast.YieldFrom, ast.Await)) for _, v in pairs[1:] for n in ast.walk(v)):
+                for t, v in pairs:
                     out.append(_loc(ast.Assign(targets=[t], value=v), s))
+                if not pairs:
+                    out.append(_loc(ast.Pass(), s))
                 continue
         out.append(s)
     return out
@@ -783,6 +788,49 @@ def _strip_tail_continue(stmts):
     return stmts
 
 
+def _drop_dead_constant_stores(fnode):
+    """`x = <constant>` whose value no read can see (every path overwrites x first): the statement is removed.
+    Decided by reaching definitions (sa/refnorm.webs): the store's def-use web contains no read."""
+    from .refnorm import webs, local_names
+
+    cands = []
+    for n in ast.walk(fnode):
+        if isinstance(n, ast.Assign) and len(n.targets) == 1 and isinstance(n.targets[0], ast.Name) and _is_const(n.value):
+            cands.append(n)
+    if not cands:
+        return False
+    loc = local_names(fnode)
+    w = webs(fnode, loc)
+    if not w:
+        return False
+    read_webs = {w.get(id(n)) for n in ast.walk(fnode) if isinstance(n, ast.Name) and isinstance(n.ctx, ast.Load) and id(n) in w}
+    # names read inside nested functions / lambdas / comprehensions keep every store alive
+    captured = set()
+    for n in ast.walk(fnode):
+        if isinstance(n, (ast.Lambda, ast.FunctionDef, ast.AsyncFunctionDef)) and n is not fnode:
+            captured |= {x.id for x in ast.walk(n) if isinstance(x, ast.Name)}
+    dead = [n for n in cands if n.targets[0].id in loc and n.targets[0].id not in captured and id(n.targets[0]) in w and w[id(n.targets[0])] not in read_webs]
+    if not dead:
+        return False
+    dead_ids = {id(n) for n in dead}
+
+    def prune(lst):
+        keep = [x for x in lst if id(x) not in dead_ids]
+        for x in keep:
+            for f in ("body", "orelse", "finalbody"):
+                sub = getattr(x, f, None)
+                if isinstance(sub, list) and not isinstance(x, (ast.FunctionDef, ast.AsyncFunctionDef, ast.ClassDef)):
+                    new = prune(sub)
+                    setattr(x, f, new if (new or f != "body") else [_loc(ast.Pass(), x)])
+            if isinstance(x, ast.Try):
+                for h in x.handlers:
+                    h.body = prune(h.body) or [_loc(ast.Pass(), h)]
+        return keep
+
+    fnode.body = prune(fnode.body) or [_loc(ast.Pass(), fnode)]
+    return True
+
+
 def _inline_single_use(fnode):
     """a local assigned once and read once, by the very next statement of its block, before anything else with an
     effect is evaluated there (or anywhere in it when the value is pure): the temporary is removed"""
@@ -1002,6 +1050,8 @@ def canon_stmt(s):
         if not _returns_value(s):
             s.body = canon_block(_strip_tail_returns(s.body))
         if _inline_single_use(s):
+            s.body = canon_block(s.body)
+        if _drop_dead_constant_stores(s):
             s.body = canon_block(s.body)
     elif isinstance(s, ast.ClassDef):
         s.body = [canon_stmt(x) for x in s.body]
